@@ -26,7 +26,8 @@
    in harness/vpay.hpp.
 
    cfg = write slots per thread :: snapshot slots per thread :: initial value :: mutex kind
-         (ignored: std::mutex and std::timed_mutex behave alike, lock() only ever calls lock/unlock)
+         (0 std::mutex, 1 std::timed_mutex: they behave alike, the library only ever calls lock/unlock on it; but
+         with std::mutex the timed shared forms, op codes 12 and 13, are not instantiated and are refused)
          :: throw plan (global indices of the user_call invocations that throw). *)
 From Coq Require Import List Arith ZArith Bool.
 Import ListNotations.
@@ -49,7 +50,9 @@ Definition opcode (o : op) : Z :=
   | Lock _ => 0 | Write _ _ => 4 | Incr _ => 5 | ReadH _ => 6 | Release _ => 7 | Cancel _ => 8 | Move _ _ => 9
   | LockShared k _ => k | ReadSnap _ => 14 | DropSnap _ => 15 | CopySnap _ _ => 16 | ReleaseUnw _ => 17 | Refused k => k
   end.
-Definition decode_op (z : list Z) : option op :=
+(* [timed]: the outer mutex is std::timed_mutex (cfg); with std::mutex the harness does not instantiate the timed
+   shared forms (codes 12, 13) and refuses them *)
+Definition decode_op (timed : bool) (z : list Z) : option op :=
   match z with
   | [0; s] => Some (Lock (Z.to_nat s))
   | [4; s; v] => Some (Write (Z.to_nat s) v)
@@ -62,7 +65,7 @@ Definition decode_op (z : list Z) : option op :=
   | [15; s] => Some (DropSnap (Z.to_nat s))
   | [16; a; b] => Some (CopySnap (Z.to_nat a) (Z.to_nat b))
   | [17; s] => Some (ReleaseUnw (Z.to_nat s))
-  | [k; s] => if (10 <=? k) && (k <=? 13) then Some (LockShared k (Z.to_nat s)) else Some (Refused k)
+  | [k; s] => if (10 <=? k) && (k <=? 13) && (timed || (k <=? 11)) then Some (LockShared k (Z.to_nat s)) else Some (Refused k)
   | k :: _ => Some (Refused k)
   | [] => None
   end.
@@ -479,10 +482,10 @@ Definition init (nw ns : nat) (x : Z) (pl : list Z) (progs : list (list op)) : s
   Sys (init_glob x pl) (map (init_loc nw ns) progs).
 
 (* ---------- entry point of the correspondence check ---------- *)
-Fixpoint decode_prog (p : list (list Z)) : list op :=
+Fixpoint decode_prog (timed : bool) (p : list (list Z)) : list op :=
   match p with
   | [] => []
-  | z :: r => match decode_op z with Some o => o :: decode_prog r | None => decode_prog r end
+  | z :: r => match decode_op timed z with Some o => o :: decode_prog timed r | None => decode_prog timed r end
   end.
 
 Definition opt1 (m : option nat) : Z := match m with Some _ => 1 | None => 0 end.
@@ -493,6 +496,6 @@ Definition final (s : sys glob loc) : list line :=
 
 Definition cfg_nth (cfg : list Z) (i : nat) : Z := nth i cfg 0.
 Definition init_of (cfg : list Z) (progs : list (list (list Z))) : sys glob loc :=
-  init (Z.to_nat (cfg_nth cfg 0)) (Z.to_nat (cfg_nth cfg 1)) (cfg_nth cfg 2) (skipn 4 cfg) (map decode_prog progs).
+  init (Z.to_nat (cfg_nth cfg 0)) (Z.to_nat (cfg_nth cfg 1)) (cfg_nth cfg 2) (skipn 4 cfg) (map (decode_prog (cfg_nth cfg 3 =? 1)) progs).
 Definition run_case (cfg : list Z) (progs : list (list (list Z))) (sched : list (Z * Z)) : list line :=
   run_case_gen glob loc tstep fin (init_of cfg progs) sched final.
